@@ -120,22 +120,52 @@ def rewrite(F, rep):
     # makes the rewrite depend on whether T is declared above or below the use site (seeded change C17-c)
     allowed = {"newtype_checked_ctor", "current_impl_type"}
     seen_hook = seen_impl = False
-    for b in guards:
-        t = f.term(b)
+    # guards: (function, block); a guard whose value comes from a helper method of the same file (the decision extracted
+    # into `fn checked_ctor_for_call(..) -> Option<..>`) is followed into the helper: there, whatever controls the
+    # construction of `Some(..)` is a guard of the rewrite as well
+    todo = [(f, b) for b in guards]
+    seen_g = set()
+    while todo:
+        g, b = todo.pop()
+        if (g.path, b) in seen_g:
+            continue
+        seen_g.add((g.path, b))
+        t = g.term(b)
         pl = op_place(t["on"])
-        locs, calls, _ = backward_slice(f, [pl["l"]]) if pl is not None else (set(), [], set())
-        flds = lowering_field_reads(f, locs)
+        locs, calls, _ = backward_slice(g, [pl["l"]]) if pl is not None else (set(), [], set())
+        flds = lowering_field_reads(g, locs)
         names = [(callee_generic(ct) or "").split("::")[-1] for _, ct in calls]
+        for _, ct in calls:
+            cn = callee_name(ct) or ""
+            h = F.fns.get(cn)
+            if h is None or h.file != f.file or h.path == f.path or "AstLowering" not in cn:
+                continue
+            rep.functions.add(h.path)
+            somes = [bi for bi, blk in enumerate(h.blocks) for st in blk["st"]
+                     if st["s"] == "assign" and st["rv"]["r"] == "agg" and st["rv"].get("variant") in ("Some", "Ok")
+                     and (st["rv"].get("adt") or "").startswith("core::")]
+            hp = postdominators(h)
+            for sb in somes:
+                for hb in range(len(h.blocks)):
+                    ht = h.term(hb)
+                    if ht["t"] != "switch" or sb in hp.get(hb, set()):
+                        continue
+                    if any(sb in blocks_dominated_by_edge(h, hb, s2) for s2 in h.succs()[hb]):
+                        todo.append((h, hb))
+            # `let x = self.map.get(k)?;` — the Option is consumed by `?`: its source is a guard too
+            flds |= lowering_field_reads(h, set(range(len(h.locals)))) & {"newtype_checked_ctor", "current_impl_type"} \
+                if not somes else set()
         on_irtype = False
-        d = f.single_def(pl["l"]) if pl is not None else None
+        d = g.single_def(pl["l"]) if pl is not None else None
         if d and d[2] == "assign" and d[3]["r"] == "discr" and d[3].get("adt", "").endswith("types::IrType"):
             on_irtype = True
         seen_hook |= "newtype_checked_ctor" in flds
         seen_impl |= "current_impl_type" in flds
         ok = flds <= allowed and not on_irtype
-        inst = "guard@bb%d" % b
-        rep.oblige("REWRITE", inst, ok, sample={"rule": "REWRITE", "line": t.get("ln"), "reads": sorted(flds),
-                                                "via": sorted(set(names))[:5], "branch_on_IrType": on_irtype})
+        inst = "guard@%s:bb%d" % (g.path.split("::")[-1], b) if g is not f else "guard@bb%d" % b
+        rep.oblige("REWRITE", inst, ok, sample={"rule": "REWRITE", "fn": g.path.split("::")[-1], "line": t.get("ln"),
+                                                "reads": sorted(flds), "via": sorted(set(names))[:5],
+                                                "branch_on_IrType": on_irtype})
         if not ok:
             what = "the lowered IrType of the type name" if on_irtype else "lowering state %s" % sorted(flds - allowed)
             rep.add(Finding("REWRITE", "REWRITE|lower_expr|guard-on-%s" % ("IrType" if on_irtype else
@@ -143,7 +173,7 @@ def rewrite(F, rep):
                             "the newtype checked-construction rewrite is additionally guarded by %s: that is only "
                             "known after the newtype's own declaration has been lowered, so `T(x)` in a function "
                             "placed above `type T = newtype ..` silently becomes a raw wrap and the validation hook "
-                            "is skipped" % what, file=f.file, line=t.get("ln"), fn=f.path))
+                            "is skipped" % what, file=g.file, line=t.get("ln"), fn=g.path))
     for name, ok in (("hook-registry-consulted", seen_hook), ("inside-impl-exemption-consulted", seen_impl)):
         rep.oblige("REWRITE", name, ok)
         if not ok:
@@ -153,56 +183,70 @@ def rewrite(F, rep):
 
 
 def hookselect(F, rep):
+    """The Vec of hook candidates that is COUNTED (len() == 1, slice pattern, pop) was produced by an iterator chain
+    whose filters decide on the method's shape: receiver (static), name (from_*), params (one parameter of the underlying
+    type) and return_type (Result[T, _]). The rule reads what the filter closures and the functions they call consume
+    (CONSUME engine), not how the predicates are named or nested."""
+    from engines import field_consumption
     f = F.one_fn("AstLowering::select_newtype_checked_ctor")
     if not rep.anchor("HOOKSELECT", "select_newtype_checked_ctor", f):
         return
     rep.functions.add(f.path)
-    clos = [g for p, g in F.fns.items() if p.startswith(f.path + "::{closure")]
-    filt = None
-    for g in clos:
-        names = [(callee_name(t) or "").split("::")[-1] for _, t in g.calls()]
-        if "starts_with" in names or "matches_underlying_param" in names or "is_result_of_newtype" in names:
-            if filt is None or len(g.blocks) > len(filt.blocks):
-                filt = g
-    if not rep.anchor("HOOKSELECT", "candidate filter closure", filt):
+    own = [p for p in F.fns if p == f.path or p.startswith(f.path + "::")]
+    collects = []
+    for p in own:
+        g = F.fns[p]
+        for bi, t in g.calls():
+            if (callee_generic(t) or "").endswith("Iterator::collect") and "MethodDecl" in t["f"].get("inst", "") and \
+                    "Vec" in t["f"].get("inst", "") and "String" not in t["f"].get("inst", "").split("MethodDecl")[0][-30:]:
+                collects.append((g, t))
+    collects = [(g, t) for g, t in collects if g.path == f.path] or collects
+    if not rep.anchor("HOOKSELECT", "collect() of the hook candidates", collects):
         return
-    names = [(callee_name(t) or "").split("::")[-1] for _, t in filt.calls()]
-    for pred in ("matches_underlying_param", "is_result_of_newtype", "starts_with"):
-        ok = pred in names
-        rep.oblige("HOOKSELECT", "filter:" + pred, ok, sample={"rule": "HOOKSELECT", "filter_calls": names,
-                                                               "predicate": pred, "present": ok})
+    g, t = collects[0]
+    # walk the adaptor chain backwards and gather the closures / function items it filters with
+    preds = []
+    cur = op_place(t["args"][0]) if t["args"] else None
+    for _ in range(10):
+        if cur is None:
+            break
+        d = g.single_def(cur["l"])
+        if d is None or d[2] != "call":
+            if d and d[2] == "assign" and d[3]["r"] in ("use", "cast") and op_place(d[3]["o"]) is not None:
+                cur = op_place(d[3]["o"])
+                continue
+            break
+        ct = d[3]
+        gg = (callee_generic(ct) or "").split("::")[-1]
+        if gg in ("filter", "filter_map", "take_while", "skip_while", "map_while") and len(ct["args"]) > 1:
+            a = op_place(ct["args"][1])
+            dd = g.single_def(a["l"]) if a is not None and not a["p"] else None
+            if dd and dd[2] == "assign" and dd[3]["r"] == "agg" and dd[3].get("ak") == "closure":
+                preds.append(dd[3]["def"])
+        cur = op_place(ct["args"][0]) if ct["args"] else None
+    if not rep.anchor("HOOKSELECT", "filter closure(s) in front of the candidates' collect()", preds):
+        return
+    fam = set()
+    for c in preds:
+        fam |= F.closure([c], pred=lambda q: F.fns[q].file == f.file or q.startswith(f.path))
+    cons = field_consumption(F, fam)
+    got = {k[2] for k in cons if k[0].endswith("ast::MethodDecl")}
+    got |= {"params.ty" for k in cons if k[0].endswith("ast::Param") and k[2] == "ty"}
+    # for `receiver: Option<Receiver>` the question "is there one?" is the whole content: a plain read counts
+    got |= {k[2] for k in F.field_reads(fam) if k[0].endswith("ast::MethodDecl") and k[2] == "receiver"}
+    for fld, what in (("receiver", "a static method (no receiver)"), ("name", "the from_* naming convention"),
+                      ("params", "exactly one parameter of the underlying type"),
+                      ("return_type", "the return type Result[T, _]")):
+        ok = fld in got
+        rep.oblige("HOOKSELECT", "filter:" + fld, ok, sample={"rule": "HOOKSELECT", "candidate_filter_consumes":
+                                                              sorted(got), "needs": fld})
         if not ok:
-            rep.add(Finding("HOOKSELECT", "HOOKSELECT|filter|%s" % pred,
-                            "hook candidates are no longer filtered by `%s` before they are counted: an unrelated "
-                            "static from_* helper makes the selection ambiguous, no hook is chosen and every T(x) is "
-                            "constructed unchecked" % pred, file=filt.file, line=filt.line, fn=filt.path))
-    # the receiver test (static methods only)
-    reads = F.field_reads([filt.path])
-    ok = any(k[0].endswith("MethodDecl") and k[2] == "receiver" for k in reads)
-    rep.oblige("HOOKSELECT", "filter:static-only", ok)
-    if not ok:
-        rep.add(Finding("HOOKSELECT", "HOOKSELECT|filter|receiver", "the candidate filter no longer requires a static "
-                        "method (no receiver)", file=filt.file, line=filt.line, fn=filt.path))
-    # both shape predicates themselves still test what they say
-    for pred, needs in (("matches_underlying_param", ("params", "ty")), ("is_result_of_newtype", ())):
-        g = F.one_fn("select_newtype_checked_ctor::" + pred)
-        if not rep.anchor("HOOKSELECT", pred, g):
-            continue
-        r = F.field_reads([g.path])
-        fl = {k[2] for k in r}
-        ok = all(n in fl for n in needs)
-        rep.oblige("HOOKSELECT", "predicate:" + pred, ok, sample={"rule": "HOOKSELECT", "predicate": pred,
-                                                                  "reads": sorted(fl)})
-        if not ok:
-            rep.add(Finding("HOOKSELECT", "HOOKSELECT|predicate|%s" % pred,
-                            "%s no longer inspects %s" % (pred, needs), file=g.file, line=g.line, fn=g.path))
-    # preference: the from_underlying lookup happens before the len()==1 rule
-    strs = []
-    for g in [f] + clos:
-        from engines import all_string_constants
-        strs += [v for _, v in all_string_constants(g)]
-    pref = any((callee_name(t) or "").endswith("Iterator::find") or (callee_generic(t) or "").endswith("::find")
-               for _, t in f.calls())
+            rep.add(Finding("HOOKSELECT", "HOOKSELECT|filter|%s" % fld,
+                            "the hook candidates that are counted were not filtered on %s (MethodDecl.%s is not "
+                            "consumed by the filters in front of collect()): an unrelated static from_* helper makes "
+                            "the selection ambiguous, no hook is chosen and every T(x) is constructed unchecked"
+                            % (what, fld), file=g.file, line=t.get("ln"), fn=g.path))
+    pref = any((callee_generic(t2) or "").endswith("::find") for q in own for _, t2 in F.fns[q].calls())
     rep.oblige("HOOKSELECT", "prefers-from_underlying", pref)
     if not pref:
         rep.add(Finding("HOOKSELECT", "HOOKSELECT|preference", "select_newtype_checked_ctor no longer searches the "
@@ -248,7 +292,7 @@ def pair(F, rep):
                             "%s sets current_impl_type but the assignment restoring the saved value does not "
                             "post-dominate it: after an early exit the inside-impl exemption leaks into later code "
                             "and T(x) there is left unchecked" % short, file=f.file, line=f.line, fn=p))
-    rep.floor("PAIR", "functions setting current_impl_type", n, 2)
+    rep.floor("PAIR", "functions setting current_impl_type", n, 1)
 
 
 def _arg_is_field(f, t, field):
